@@ -128,3 +128,26 @@ package ipk
 //@     invariant [C02] no-blank-items-so-far: forall(0, len(result), func(i int) bool { return result[i] != "" && result[i] == strings.TrimSpace(result[i]) })
 //
 //@ pure func renderControl$2(strs string) (result string)
+//
+//@ import "time"
+//
+//@ spec func ctlItem(name string, mode int64, body string, mtime time.Time) string {
+//@     return ufStr("tarHead", name, mode, int64(len(body)), byte('0'), "", "", "", mtime) + body
+//@ }
+//
+//@ spec func scriptItem(slot, path string, mode int64, mtime time.Time) string {
+//@     if path == "" { return "" }
+//@     return ctlItem(slot, mode, fsContent(path), mtime)
+//@ }
+//
+//@ inline func populateControlTar(info *nfpm.Info, out *tar.Writer, instSize int64) (err error)
+//@   requires info != nil && out != nil
+//@   requires !ghostFlag("failed")
+//@   requires ghostInt(out, "tarRemaining") == 0 && !ghostBool(out, "tarClosed")
+//@   ensures [C09 C08 C02] control-archive-members: implies(err == nil, ghostStr(out, "tarManifest") == old(ghostStr(out, "tarManifest")) +
+//@       ctlItem("./control", 0o644, old(ipkControl(info, instSize/1024)), lastTime("github.com/goreleaser/nfpm/v2/internal/modtime.Get")) +
+//@       ctlItem("./conffiles", 0o644, string(lastBytes("conffiles")), lastTime("github.com/goreleaser/nfpm/v2/internal/modtime.Get")) +
+//@       scriptItem("./preinst", info.Scripts.PreInstall, 0o755, lastTime("github.com/goreleaser/nfpm/v2/internal/modtime.Get")) +
+//@       scriptItem("./postinst", info.Scripts.PostInstall, 0o755, lastTime("github.com/goreleaser/nfpm/v2/internal/modtime.Get")) +
+//@       scriptItem("./prerm", info.Scripts.PreRemove, 0o755, lastTime("github.com/goreleaser/nfpm/v2/internal/modtime.Get")) +
+//@       scriptItem("./postrm", info.Scripts.PostRemove, 0o755, lastTime("github.com/goreleaser/nfpm/v2/internal/modtime.Get")))
